@@ -13,7 +13,9 @@ Open Scope Z_scope.
    every transform reads as before, and the callbacks observed during the
    assignment are, in some order, exactly one call of the matching on_<p>_change
    method per registered listener handling that event, each carrying the value
-   the read returns; construction stores the arguments (or the defaults) the
+   the read returns (k_same: the listener itself, reading the property from
+   inside the callback, already sees that value: the value was stored before
+   it was announced); construction stores the arguments (or the defaults) the
    same way and notifies nobody. *)
 Theorem C20_setter_notifies_stored :
   forall c : C20_case, wf_b c = true -> known_b c = false -> accepts c = true -> holds c.
